@@ -361,3 +361,20 @@ func zzC03_subsec() {
 	zzAssert(int(e.Time.subSecTime) == ms, "SubSecTime digits d1d2d3.. are the decimal fraction 0.d1d2d3 of a second, i.e. 100*d1+10*d2+d3 ms")
 	zzReached("end")
 }
+
+// directories at the documented limit: 127 and 128 entries (foreign SHORT tags plus Orientation as the last entry)
+func zzC03_bigdir_N() int { return 2 }
+func zzC03_bigdir() {
+	n := 127 + zzPart()
+	o := zzU16("o")
+	t := zzNewTiff(8+2+12*n+4+8, false, 8)
+	t.dir(8, n, 0)
+	t.entShort(8, 0, 0x0112, o)
+	for i := 1; i < n; i++ {
+		t.entShort(8, i, uint16(0x1000+i), uint16(i))
+	}
+	e, err := zzDecode(t.b)
+	zzAssert(err == nil, "a directory with up to 128 entries decodes without error")
+	zzAssert(uint16(e.Orientation) == o, "fields of a directory with up to 128 entries are reported")
+	zzReached("end")
+}
